@@ -54,3 +54,11 @@ add("C13", "round trip: descriptor string read back by a bracket-matching reader
     "Injectivity/canonicity of the rendering is decided by reading the string back into a tree and comparing with the tree the chain was built from, for all small shapes in all supply orders and for generated chains under a family of user patterns.",
     "Trusted: pbt/chains.read_descriptor and read_postfix; names with balanced parentheses only.",
     "DESIGN.md 4 C13")
+add("C14", "exhaustive enumeration of short call histories against a stack model + Hypothesis rule-based machine over a generated pattern language",
+    "All histories up to the length bound over a 13-operation alphabet (create / enter / leave normally or by exception / set valid or invalid / render) are executed and compared with a stack model; long histories and arbitrary patterns are sampled with a state machine.",
+    "Trusted: the stack model (30 lines), Python's str.format as reference renderer.",
+    "DESIGN.md 4 C14")
+add("C15", "round trip through Graphviz's own JSON export: rooted port-labelled tree of the DOT source vs an independent walk over the chain dictionary, sessions of several viewers",
+    "Generated chain dictionaries (parser-built and class-built) are rendered, read back by `dot -Tjson0` (which also decides acceptance) and compared as trees up to node identifiers; identifier uniqueness is checked across the graphs of a session.",
+    "Trusted: Graphviz dot 2.43, particle's EvtGen->LaTeX->HTML name conversion for cell texts.",
+    "DESIGN.md 4 C15")
